@@ -39,6 +39,7 @@
 package main
 
 import (
+	"fmt"
 	"math/rand"
 	"runtime"
 	"time"
@@ -107,7 +108,144 @@ func genCase(r *rand.Rand, thorough bool) *ipamkit.ConcCase {
 	return cc
 }
 
+// ---------------------------------------------------------------------------------------------
+// Systematic duels: tiny scenarios on ONE block whose racing calls are explored under every
+// schedule with at most two preemptions (dsched.Explore), instead of sampled schedules.
+
+const duelBlock = "10.22.0.0/30"
+
+var (
+	duelPrologues = [][]ipamkit.DuelStep{
+		0: nil,
+		1: {{Host: "host-a", Step: ipamkit.Step{Kind: ipamkit.KClaimAffinity, CIDR: duelBlock}}},
+		2: {{Host: "host-a", Step: ipamkit.Step{Kind: ipamkit.KAutoAssign, Num4: 1, Handle: "h-pro"}}},
+		// crash between the block create and the confirm: pending affinity + block
+		3: {{Host: "host-a", Step: ipamkit.Step{Kind: ipamkit.KClaimAffinity, CIDR: duelBlock}, CrashAfterWrite: 2}},
+		// another host's release crashed after marking the affinity pendingDeletion
+		4: {{Host: "host-a", Step: ipamkit.Step{Kind: ipamkit.KClaimAffinity, CIDR: duelBlock}},
+			{Host: "host-b", Step: ipamkit.Step{Kind: ipamkit.KReleaseAffinity, CIDR: duelBlock, Host: "host-a"}, CrashAfterWrite: 1}},
+		// crash right after the pending affinity was created: pending affinity, no block
+		5: {{Host: "host-a", Step: ipamkit.Step{Kind: ipamkit.KClaimAffinity, CIDR: duelBlock}, CrashAfterWrite: 1}},
+	}
+	duelA = []ipamkit.Step{
+		{Kind: ipamkit.KClaimAffinity, CIDR: duelBlock},
+		{Kind: ipamkit.KAutoAssign, Num4: 1, Handle: "h-a"},
+		{Kind: ipamkit.KAssignIP, IP: "10.22.0.1", Handle: "h-a"},
+		{Kind: ipamkit.KReleaseAffinity, CIDR: duelBlock, MustBeEmpty: true},
+	}
+	duelB = []ipamkit.Step{
+		{Kind: ipamkit.KReleaseAffinity, CIDR: duelBlock, Host: "host-a"},
+		{Kind: ipamkit.KReleaseAffinity, CIDR: duelBlock, Host: "host-a", MustBeEmpty: true},
+		{Kind: ipamkit.KClaimAffinity, CIDR: duelBlock},
+		{Kind: ipamkit.KAutoAssign, Num4: 1, Handle: "h-b"},
+		{Kind: ipamkit.KReleaseHostAffinities, Host: "host-a"},
+		{Kind: ipamkit.KReleasePoolAffinities, CIDR: duelBlock},
+	}
+)
+
+const nDuelCombos = 6 * 4 * 6 * 2 * 2
+
+func duelCombo(i int) *ipamkit.Duel {
+	pi := i % 6
+	i /= 6
+	ai := i % 4
+	i /= 4
+	bi := i % 6
+	i /= 6
+	ei := i % 2
+	i /= 2
+	strict := i%2 == 1
+	d := &ipamkit.Duel{
+		Name: fmt.Sprintf("prologue%d/A%d/B%d/epilogue%d/strict=%v", pi, ai, bi, ei, strict),
+		Spec: ipamkit.WorldSpec{
+			Nodes:  []ipamkit.NodeSpec{{Name: "host-a"}, {Name: "host-b"}},
+			Pools:  []ipamkit.PoolSpec{{Name: "pool4", CIDR: duelBlock, BlockSize: 30, AllowedUses: []apiv3.IPPoolAllowedUse{apiv3.IPPoolAllowedUseWorkload}}},
+			Config: &ipam.IPAMConfig{AutoAllocateBlocks: true, StrictAffinity: strict},
+		},
+		Prologue: duelPrologues[pi],
+		Shift:    3 * time.Minute, // the prologue's claim is old enough to be reclaimed
+		Racers:   []ipamkit.DuelStep{{Host: "host-a", Step: duelA[ai]}, {Host: "host-b", Step: duelB[bi]}},
+		Tracker:  ipamkit.TrackerOpts{Structural: true, Affinity: true, Strict: strict},
+	}
+	claimA := ipamkit.DuelStep{Host: "host-a", Step: ipamkit.Step{Kind: ipamkit.KClaimAffinity, CIDR: duelBlock}}
+	claimB := ipamkit.DuelStep{Host: "host-b", Step: ipamkit.Step{Kind: ipamkit.KClaimAffinity, CIDR: duelBlock}}
+	if ei == 0 {
+		d.Epilogue = []ipamkit.DuelStep{claimB, claimA}
+	} else {
+		d.Epilogue = []ipamkit.DuelStep{claimA, claimB}
+	}
+	return d
+}
+
+func runDuel(c *harness.Case, combo int) {
+	d := duelCombo(combo)
+	c.Sample(map[string]any{"duel": d.Name})
+	c.NonTrivial("duel", d.Name)
+	reported := map[string]bool{}
+	maxRuns := c.Pick(400, 3000)
+	runs, truncated := dsched.Explore(2, maxRuns, func(prefix []int) ([]dsched.StepInfo, bool) {
+		o := d.Run(prefix)
+		if o.SetupErr != nil {
+			c.Inconclusive("setup: " + o.SetupErr.Error())
+			return nil, false
+		}
+		if o.Stuck {
+			c.Inconclusive("scheduler-watchdog")
+			return nil, false
+		}
+		c.Count("duel_schedules", 1)
+		c.Count("runs", 1)
+		c.Distinct("schedules", d.Name, fmt.Sprint(o.Race.Decisions))
+		c.Count("sched_divergences", int64(o.Race.Divergences))
+		c.Count("ds_ops", int64(o.Race.DSOps))
+		c.Count("conflicts_seen", int64(o.Race.Conflicts))
+		c.Count("conflicts_real", int64(o.Race.RealConflicts))
+		c.Count("committed_writes", o.Tracker.NWrites)
+		c.Count("affinity_writes", o.Tracker.NAffWrites)
+		c.Count("block_writes", o.Tracker.NBlockWrites)
+		c.Count("online_checks", o.Tracker.NChecks)
+		c.Count("blocks_given_up", o.Tracker.NGivenUp)
+		c.Count("affinities_confirmed", o.Tracker.NConfirms)
+		c.Count("logical_ops", int64(len(o.World.Ops())))
+		var wit map[string]any
+		for _, v := range o.Violations {
+			if reported[v.Key] {
+				continue
+			}
+			reported[v.Key] = true
+			if wit == nil {
+				wit = o.Witness(d)
+			}
+			c.Violationf(v.Key, wit, "%s [duel %s, schedule %v]", v.Msg, d.Name, o.Race.Decisions)
+		}
+		return o.Race.Trace, len(reported) < 4
+	})
+	c.Count("duels", 1)
+	_ = runs
+	if truncated {
+		c.Count("duels_truncated", 1)
+	} else {
+		c.Count("duels_exhausted_bound2", 1)
+	}
+}
+
+func nDuels(tier string) int {
+	if tier == "thorough" {
+		return nDuelCombos
+	}
+	return 36
+}
+
 func run(c *harness.Case) {
+	if nd := nDuels(c.Tier); c.Index < nd {
+		combo := c.Index
+		if nd < nDuelCombos { // stratified sample of the combination space
+			stride := nDuelCombos / nd
+			combo = c.Index*stride + c.R.Intn(stride)
+		}
+		runDuel(c, combo)
+		return
+	}
 	cc := genCase(c.R, c.Thorough())
 	d := &ipamkit.Driver{C: c, CC: cc, Seed: c.R.Int63(), Mode: dsched.Uniform, RandomRuns: c.Pick(2, 4), FreeRunning: c.Index%8 == 7, FreeRuns: 3}
 	if c.R.Intn(2) == 0 {
@@ -133,9 +271,9 @@ func main() {
 		},
 		Cases: func(tier string) int {
 			if tier == "thorough" {
-				return 1000
+				return nDuels(tier) + 600
 			}
-			return 40
+			return nDuels(tier) + 24
 		},
 		Setup: func(tier string) error {
 			logrus.SetLevel(logrus.PanicLevel)
